@@ -120,3 +120,4 @@ package newick
 //@   flag treeop
 //@   requires pw(p)
 //@   ensures [tree_or_error] result1 == nil ==> result0 != nil
+//@   ensures [the_tree_owns_a_name_index_map] result1 == nil ==> result0.tipIndex != nil
